@@ -1,38 +1,155 @@
-(* model/C05.v -- executable models of the point scores (C05).  Kernels come from coq/gen
-   (regenerated from source); the surrounding plumbing is a hand model validated by the
-   correspondence check. *)
-From V Require Import lib.Tree gen.Gen_quantile_loss gen.Gen_functions.
+(* model/C05.v -- executable models of the point and interval scores (C05; reused by C01-C03).
+   Kernels come from coq/gen (regenerated from source on every run); the plumbing around them
+   (pre-checks, dimension rule, weights, NaN-skipping mean, NaN matching) is a hand model validated
+   by the correspondence check. *)
+From V Require Import lib.Tree gen.Gen_quantile_loss gen.Gen_functions gen.Gen_interval gen.Gen_standard.
 Open Scope string_scope.
 
 Definition of_guard (g : option err) : result unit := match g with Some e => Err e | None => Ok tt end.
 
+(* the duplicate pre-check of quantile_score / quantile_interval_score (after the fix: commit) *)
+Definition precheck_specified (fd : list dim) (rd pd : dimspec) : result unit :=
+  let specified := if truthy rd then rd else pd in
+  if is_none specified || is_all specified then Ok tt
+  else check_dims fd (DList (as_list specified)) MSuperset.
+
 (* continuous/quantile_loss_impl.py :: quantile_score *)
 Definition quantile_score_m (fcst obs : larr) (alpha : xv) (rd pd : dimspec) (w : option larr) : result larr :=
-  let specified := if truthy rd then rd else pd in
-  do _ <- (if is_none specified || is_all specified then Ok tt
-           else check_dims (ldims fcst) (DList (as_list specified)) MSuperset) ;;
+  do _ <- precheck_specified (ldims fcst) rd pd ;;
   do _ <- check_dims (ldims obs) (DList (ldims fcst)) MSubset ;;
   do _ <- of_guard (gen_guard_quantile_score alpha) ;;
   do R <- gather (ldims fcst) (ldims obs) None rd pd DNone ;;
   Ok (mean_score (lzip (fun f o => gen_quantile_score f o alpha) fcst obs) w R).
 
-(* the proved specification of the pinball kernel (coq/proofs/C05.v: pinball_ok) *)
+(* continuous/interval_impl.py :: quantile_interval_score -- four components *)
+Definition any_true (a : larr) : bool :=      (* (cond).any() over the whole array *)
+  existsb (fun v => xeqb v X1) (snd (to_flat a)).
+Definition qis_m (lo hi obs : larr) (ll ul : xv) (rd pd : dimspec) (w : option larr) : result (list larr) :=
+  do _ <- of_guard (gen_guard_qis ll ul) ;;
+  do _ <- check_dims (ldims hi) (DList (ldims lo)) MEqual ;;
+  do _ <- precheck_specified (ldims lo) rd pd ;;
+  do _ <- check_dims (ldims obs) (DList (ldims lo)) MSubset ;;
+  do _ <- guard (any_true (lzip (fun a b => b2x (xgt a b)) lo hi)) ValueError ;;
+  do R <- gather (ldims lo) (ldims obs) None rd pd DNone ;;
+  let comp (sel : xv * xv * xv * xv -> xv) :=
+    mean_score (lzip3 (fun a b o => sel (gen_qis a b o ll ul)) lo hi obs) w R in
+  Ok [comp (fun t => fst (fst (fst t))); comp (fun t => snd (fst (fst t))); comp (fun t => snd (fst t)); comp snd].
+Definition interval_score_m (lo hi obs : larr) (ir : xv) (rd pd : dimspec) (w : option larr) : result (list larr) :=
+  do _ <- of_guard (gen_guard_interval_score ir) ;;
+  let '(lq, uq) := gen_interval_levels ir in
+  qis_m lo hi obs lq uq rd pd w.
+
+(* continuous/standard_impl.py :: mse, mae, additive_bias (xarray inputs) *)
+Definition simple_mean_m (k : xv -> xv -> xv) (fcst obs : larr) (rd pd : dimspec) (w : option larr) : result larr :=
+  do R <- gather (ldims fcst) (ldims obs) None rd pd DNone ;;
+  Ok (mean_score (lzip k fcst obs) w R).
+Definition mse_m f o rd pd w (ang : bool) := simple_mean_m (fun a b => gen_mse_kernel a b ang) f o rd pd w.
+Definition mae_m f o rd pd w (ang : bool) := simple_mean_m (fun a b => gen_mae_kernel a b ang) f o rd pd w.
+Definition bias_m f o rd pd w := simple_mean_m gen_bias_kernel f o rd pd w.
+
+(* processing/matching.py :: broadcast_and_match_nan for two arrays *)
+Definition both_valid (a b : xv) : bool := xnotnull a && xnotnull b.
+Definition match_fst (f o : larr) : larr := lzip (fun a b => xwhere (both_valid a b) a) f o.
+Definition match_snd (f o : larr) : larr := lzip (fun a b => xwhere (both_valid a b) b) f o.
+
+(* multiplicative_bias, pbias: weights multiply fcst and obs separately, then NaN matching, then ratio of means *)
+Definition ratio_m (pb : bool) (fcst obs : larr) (rd pd : dimspec) (w : option larr) : result larr :=
+  do R <- gather (ldims fcst) (ldims obs) None rd pd DNone ;;
+  let f := apply_weights w fcst in
+  let o := apply_weights w obs in
+  let fm := match_fst f o in
+  let om := match_snd f o in
+  if pb then
+    Ok (lzip xdiv (lmap (xmul (XFin 100)) (lreduce nanmean R (lzip xsub fm om))) (lreduce nanmean R om))
+  else Ok (lzip xdiv (lreduce nanmean R fm) (lreduce nanmean R om)).
+
+(* moments on jointly valid pairs, as xr.corr / .std(ddof=0) / .mean compute them:
+   (count, mean_f, mean_o, var_f, var_o, cov).  Square roots are applied by the host. *)
+Definition moments (l : list (xv * xv)) : list xv :=
+  let v := filter (fun p => both_valid (fst p) (snd p)) l in
+  let fs := map fst v in let os := map snd v in
+  let mf := nanmean fs in let mo := nanmean os in
+  let df := map (fun x => xsub x mf) fs in let do_ := map (fun x => xsub x mo) os in
+  [ xofnat (length v); mf; mo;
+    nanmean (map (fun x => xmul x x) df); nanmean (map (fun x => xmul x x) do_);
+    nanmean (map (fun p => xmul (fst p) (snd p)) (combine df do_)) ].
+Definition lreduce_pairs (g : list (xv * xv) -> xv) (R : list dim) (f o : larr) : larr :=
+  let z := lzip (fun a _ => a) f o in
+  let R' := dinter (ldims z) R in
+  {| ldims := ddiff (ldims z) R; lsize := lsize z;
+     lget := fun e => g (map (fun e' => (lget f e', lget o e')) (envs (lsize z) R' e)) |}.
+Definition moments_m (fcst obs : larr) (rd pd : dimspec) : result (list larr) :=
+  do R <- gather (ldims fcst) (ldims obs) None rd pd DNone ;;
+  Ok (map (fun i => lreduce_pairs (fun l => nth i (moments l) XNaN) R fcst obs) (seq 0 6)).
+
+(* ---- proved specifications (coq/proofs/C05.v) ---- *)
 Definition Qmax0 (x : Q) : Q := if Qle_bool 0 x then x else 0.
 Definition pinball_spec (alpha f o : Q) : Q := alpha * Qmax0 (o - f) + (1 - alpha) * Qmax0 (f - o).
 Definition pinball_spec_x (alpha f o : xv) : xv :=
   match alpha, f, o with XFin a, XFin f, XFin o => XFin (pinball_spec a f o) | _, _, _ => XNaN end.
+(* quantile interval score: width + (1/ll)(lo - y)^+ + (1/(1-ul))(y - hi)^+ *)
+Definition qis_spec (ll ul lo hi y : Q) : Q * Q * Q * Q :=
+  let w := hi - lo in let ov := Qmax0 (lo - y) / ll in let un := Qmax0 (y - hi) / (1 - ul) in
+  (w, ov, un, w + ov + un).
+
+(* ---- entries ---- *)
+Definition d_common (f o rd pd w : raw) :=
+  let? f := d_larr f in let? o := d_larr o in let? rd := d_dimspec rd in let? pd := d_dimspec pd in
+  let? w := d_opt d_larr w in Some (f, o, rd, pd, w).
+Definition e_larrs (l : list larr) : raw := RL (map e_larr l).
 
 Definition entries_C05 : list entry := [
   ("quantile_score", fun r => orun (
      match r with RL [f; o; a; rd; pd; w] =>
-       let? f := d_larr f in let? o := d_larr o in let? a := d_xv a in
-       let? rd := d_dimspec rd in let? pd := d_dimspec pd in let? w := d_opt d_larr w in
+       let? (f, o, rd, pd, w) := d_common f o rd pd w in let? a := d_xv a in
        Some (e_result e_larr (quantile_score_m f o a rd pd w))
      | _ => None end));
+  ("quantile_interval_score", fun r => orun (
+     match r with RL [lo; hi; o; ll; ul; rd; pd; w] =>
+       let? (lo, o, rd, pd, w) := d_common lo o rd pd w in let? hi := d_larr hi in
+       let? ll := d_xv ll in let? ul := d_xv ul in
+       Some (e_result e_larrs (qis_m lo hi o ll ul rd pd w))
+     | _ => None end));
+  ("interval_score", fun r => orun (
+     match r with RL [lo; hi; o; ir; rd; pd; w] =>
+       let? (lo, o, rd, pd, w) := d_common lo o rd pd w in let? hi := d_larr hi in let? ir := d_xv ir in
+       Some (e_result e_larrs (interval_score_m lo hi o ir rd pd w))
+     | _ => None end));
+  ("mse", fun r => orun (
+     match r with RL [f; o; rd; pd; w; ang] =>
+       let? (f, o, rd, pd, w) := d_common f o rd pd w in let? ang := d_bool ang in
+       Some (e_result e_larr (mse_m f o rd pd w ang)) | _ => None end));
+  ("mae", fun r => orun (
+     match r with RL [f; o; rd; pd; w; ang] =>
+       let? (f, o, rd, pd, w) := d_common f o rd pd w in let? ang := d_bool ang in
+       Some (e_result e_larr (mae_m f o rd pd w ang)) | _ => None end));
+  ("additive_bias", fun r => orun (
+     match r with RL [f; o; rd; pd; w] =>
+       let? (f, o, rd, pd, w) := d_common f o rd pd w in
+       Some (e_result e_larr (bias_m f o rd pd w)) | _ => None end));
+  ("multiplicative_bias", fun r => orun (
+     match r with RL [f; o; rd; pd; w] =>
+       let? (f, o, rd, pd, w) := d_common f o rd pd w in
+       Some (e_result e_larr (ratio_m false f o rd pd w)) | _ => None end));
+  ("pbias", fun r => orun (
+     match r with RL [f; o; rd; pd; w] =>
+       let? (f, o, rd, pd, w) := d_common f o rd pd w in
+       Some (e_result e_larr (ratio_m true f o rd pd w)) | _ => None end));
+  ("moments", fun r => orun (
+     match r with RL [f; o; rd; pd] =>
+       let? f := d_larr f in let? o := d_larr o in let? rd := d_dimspec rd in let? pd := d_dimspec pd in
+       Some (e_result e_larrs (moments_m f o rd pd)) | _ => None end));
   ("k_quantile_score", fun r => orun (
      match r with RL [f; o; a] =>
        let? f := d_xv f in let? o := d_xv o in let? a := d_xv a in
        Some (RL [e_xv (gen_quantile_score f o a); e_xv (pinball_spec_x a f o)])
+     | _ => None end));
+  ("k_qis", fun r => orun (
+     match r with RL [lo; hi; y; ll; ul] =>
+       let? lo := d_q lo in let? hi := d_q hi in let? y := d_q y in let? ll := d_q ll in let? ul := d_q ul in
+       let '(a, b, c, d) := gen_qis (XFin lo) (XFin hi) (XFin y) (XFin ll) (XFin ul) in
+       let '(a', b', c', d') := qis_spec ll ul lo hi y in
+       Some (RL [e_xvs [a; b; c; d]; e_xvs [XFin a'; XFin b'; XFin c'; XFin d']])
      | _ => None end));
   ("k_angular_difference", fun r => orun (
      match r with RL [a; b] =>
